@@ -118,6 +118,21 @@ Proof.
 Qed.
 Print Assumptions C13_bdd_pick_dd_set.
 
+(** ... spelled out: false exactly for false, an implicant, exactly the cube of
+    the trace, and at every visited node either the value is forced or it is the
+    polarity of the level's variable in the literal set *)
+Theorem C13_bdd_pick_dd_set_ok : forall s e set L s' r tr, BddOK s -> good_bdd s e -> good_bdd s set ->
+  cube_lits view_plain (S (nlevels s)) s set = Some L ->
+  pick_cube_dd_set_bdd s e set = Some (s', r, tr) ->
+  BddOK s' /\ extends s s' /\ good_bdd s' r /\
+  (forall a, den_bdd s' r a = true -> den_bdd s' e a = true) /\
+  ((forall a, den_bdd s' r a = false) <-> (forall a, den_bdd s e a = false)) /\
+  ((exists a0, den_bdd s e a0 = true) -> forall a, den_bdd s' r a = sat_trace a tr) /\
+  forall p, In p tr -> call_ok view_plain good_bdd den_bdd s p /\
+    (sp_asked p = true -> sp_val p = Some (lit_pol L (sp_level p))).
+Proof. exact pick_dd_set_bdd_ok. Qed.
+Print Assumptions C13_bdd_pick_dd_set_ok.
+
 (** uniform picking never returns a non-model, nothing iff unsatisfiable *)
 Theorem C13_bdd_uniform_model : forall draws s e cb tr k, BddOK s -> good_bdd s e ->
   pick_uniform_bdd draws s e = Some (Some (cb, tr, k)) ->
@@ -232,6 +247,21 @@ Proof.
   - apply cube_lits_bcdd_den; assumption.
 Qed.
 Print Assumptions C13_bcdd_pick_dd_set.
+
+(** ... spelled out: false exactly for false, an implicant, exactly the cube of
+    the trace, and at every visited node either the value is forced or it is the
+    polarity of the level's variable in the literal set *)
+Theorem C13_bcdd_pick_dd_set_ok : forall s e set L s' r tr, BcddOK s -> good_bcdd s e -> good_bcdd s set ->
+  cube_lits view_bcdd (S (nlevels s)) s set = Some L ->
+  pick_cube_dd_set_bcdd s e set = Some (s', r, tr) ->
+  BcddOK s' /\ extends s s' /\ good_bcdd s' r /\
+  (forall a, den_bcdd s' r a = true -> den_bcdd s' e a = true) /\
+  ((forall a, den_bcdd s' r a = false) <-> (forall a, den_bcdd s e a = false)) /\
+  ((exists a0, den_bcdd s e a0 = true) -> forall a, den_bcdd s' r a = sat_trace a tr) /\
+  forall p, In p tr -> call_ok view_bcdd good_bcdd den_bcdd s p /\
+    (sp_asked p = true -> sp_val p = Some (lit_pol L (sp_level p))).
+Proof. exact pick_dd_set_bcdd_ok. Qed.
+Print Assumptions C13_bcdd_pick_dd_set_ok.
 
 Theorem C13_bcdd_uniform_model : forall draws s e cb tr k, BcddOK s -> good_bcdd s e ->
   pick_uniform_bcdd draws s e = Some (Some (cb, tr, k)) ->
